@@ -129,61 +129,61 @@ type abortErr struct{ msg string }
 
 // Exec verifies one function.
 type Exec struct {
-	w        *World
-	pkg      *packages.Package
-	fc       *FuncCtx
-	fd       *ast.FuncDecl
-	ct       *Contract
-	bvmode   bool
-	wraps    bool
-	specInfo *types.Info
-	heap0    map[string]string
-	heapLeaf map[string]Leaf
-	heapElem map[string]types.Type
-	strs     map[string]int
-	errs     map[types.Object]string
-	specDepth int
-	binders   int
-	curPos    token.Pos
-	pre       *State // function pre-state (for old())
-	oldStack  []*State
-	envRoot   *Env
-	results   []resultVar
-	retStates []*State
-	loopOrd   int
-	targets   []*jumpTarget
-	labels    map[string]ast.Stmt
-	frameArrs map[string][]arrRange // heap key -> modifiable ranges (function level)
-	paramPaths []string
-	frameAll  bool
-	allocPre  string
-	modPaths  map[string]bool
-	props     []string // property tags of the contract (for untagged obligations)
-	anchorCnt map[*Anchor]int
-	trigStack [][]string
-	idxStack  []string // hidden range counters
-	lastCallPost map[string]string
-	recvPath string
-	ghostVars map[types.Object]string
-	pendingGotos map[string][]*State
-	inLoopFrames []*loopFrame
-	curResults *resultBinding
-	calls []string
-	loopIdx map[ast.Stmt]int
-	loopFrames []*loopFrame
-	ghostInLoop map[string]bool
-	loopsUsed map[int]bool
-	noTerm []string
-	assumes []string
+	w              *World
+	pkg            *packages.Package
+	fc             *FuncCtx
+	fd             *ast.FuncDecl
+	ct             *Contract
+	bvmode         bool
+	wraps          bool
+	specInfo       *types.Info
+	heap0          map[string]string
+	heapLeaf       map[string]Leaf
+	heapElem       map[string]types.Type
+	strs           map[string]int
+	errs           map[types.Object]string
+	specDepth      int
+	binders        int
+	curPos         token.Pos
+	pre            *State // function pre-state (for old())
+	oldStack       []*State
+	envRoot        *Env
+	results        []resultVar
+	retStates      []*State
+	loopOrd        int
+	targets        []*jumpTarget
+	labels         map[string]ast.Stmt
+	frameArrs      map[string][]arrRange // heap key -> modifiable ranges (function level)
+	paramPaths     []string
+	frameAll       bool
+	allocPre       string
+	modPaths       map[string]bool
+	props          []string // property tags of the contract (for untagged obligations)
+	anchorCnt      map[*Anchor]int
+	trigStack      [][]string
+	idxStack       []string // hidden range counters
+	lastCallPost   map[string]string
+	recvPath       string
+	ghostVars      map[types.Object]string
+	pendingGotos   map[string][]*State
+	inLoopFrames   []*loopFrame
+	curResults     *resultBinding
+	calls          []string
+	loopIdx        map[ast.Stmt]int
+	loopFrames     []*loopFrame
+	ghostInLoop    map[string]bool
+	loopsUsed      map[int]bool
+	noTerm         []string
+	assumes        []string
 	anchorCntAfter map[*Anchor]int
-	synthTypes map[ast.Expr]types.Type
-	ifaceObj map[string]Ptr
-	resTypeStrs []string
-	curStack []*State
-	anchorIdx map[*ast.IndexExpr]string
-	autoTrig [][]string
-	atStack []string
-	binderSeq int
+	synthTypes     map[ast.Expr]types.Type
+	ifaceObj       map[string]Ptr
+	resTypeStrs    []string
+	curStack       []*State
+	anchorIdx      map[*ast.IndexExpr]string
+	autoTrig       [][]string
+	atStack        []string
+	binderSeq      int
 }
 
 type resultVar struct {
@@ -194,8 +194,8 @@ type resultVar struct {
 }
 
 type jumpTarget struct {
-	node  ast.Stmt
-	label string
+	node   ast.Stmt
+	label  string
 	isLoop bool
 }
 
